@@ -212,6 +212,8 @@ InDomain(o) ==
       [] o.k = "card" -> FromDomain(o.from)
       \* the command-line tool checks the model it loads from the persisted text
       [] o.k = "cli" -> CliDomain
+      \* the identifier check reads every identifying attribute: a deleted attribute cannot be read
+      [] o.k \in {"chk_id", "consistent"} -> NoAbsent
       [] OTHER -> TRUE
 
 \* xtuml.consistency_check.main: every -r number (all associations when none is given) and every -k class (all classes
